@@ -90,6 +90,10 @@ func (c Cfg) ToConfig(warn func(string)) generator.Config {
 		SchemaMappings:      []generator.SchemaMapping{},
 	}
 	for _, m := range c.Mappings {
+		if m.Package == "" {
+			// the command line's contract: a per-schema mapping given without --schema-package uses the default package
+			m.Package = c.Package
+		}
 		cfg.SchemaMappings = append(cfg.SchemaMappings, generator.SchemaMapping{
 			SchemaID: m.ID, PackageName: m.Package, RootType: m.Root, OutputName: m.Output,
 		})
